@@ -26,6 +26,7 @@ func runC19(c *Ctx) {
 	c19Errors(c, ge)
 	c19Tamper(c, ge)
 	c19Frame(c, ge)
+	c19MacTrailer(c)
 	c19Registries(c)
 	c19Handshake(c, ge)
 }
